@@ -359,3 +359,425 @@ Proof.
   destruct (Z.leb_spec 0 e); [reflexivity | lia].
 Qed.
 
+
+
+(* ---- unsigned destinations ---- *)
+
+Lemma uint_from_u64_exact w u s : uint_from_u64 w u = Stored s -> s = StUint u.
+Proof.
+  unfold uint_from_u64. destruct (Z.eqb_spec (wrapu w u) u) as [E|E]; [|discriminate].
+  intro H; inversion H; congruence.
+Qed.
+
+Lemma uint_from_opt_exact w o s : uint_from_opt w o = Stored s -> exists u, o = Some u /\ s = StUint u.
+Proof.
+  destruct o as [u|]; [|discriminate]. intro H. exists u. split; [reflexivity|]. eapply uint_from_u64_exact; eauto.
+Qed.
+
+Lemma rne_p63 : rne 53 p63 = p63.
+Proof. vm_compute. reflexivity. Qed.
+
+Lemma rne_nonneg u : 0 <= u -> 0 <= rne 53 u.
+Proof. intro H. unfold rne. destruct (Z.ltb_spec u 0); [lia|]. apply rne_mag_nonneg. exact H. Qed.
+
+(* uint64(f) on integers, stated on the truncated magnitude d and sign s:
+   the result u satisfies: if the float equals float64(u) =: R (so sgn s d = R) then u = R *)
+Definition go_uint64_int (s : bool) (d : Z) : Z :=
+  if s || (d <? p63) then (let t := sgn s d in if in_i64 t then t else - p63) mod p64
+  else let y := d - p63 in if y <? p63 then y + p63 else p63.
+
+Lemma go_uint64_int_eq s m e : go_uint64 (FFin s m e) = go_uint64_int s (dy_trunc m e).
+Proof. reflexivity. Qed.
+
+Lemma go_uint64_int_core s d :
+  sgn s d = rne 53 (go_uint64_int s d) -> go_uint64_int s d = sgn s d.
+Proof.
+  unfold go_uint64_int.
+  destruct (s || (d <? p63)) eqn:Hlt.
+  - cbv zeta. destruct (in_i64 (sgn s d)) eqn:Hin.
+    + apply in_i64_spec in Hin. intro HT.
+      assert (0 <= sgn s d) as Hn.
+      { rewrite HT. apply rne_nonneg. apply Z.mod_pos_bound. reflexivity. }
+      apply Z.mod_small. unfold p63, p64 in *. lia.
+    + intro HT. change ((- p63) mod p64) with p63 in *. rewrite rne_p63 in HT. congruence.
+  - apply orb_false_iff in Hlt as [Hs Hd]. subst s. cbn [sgn]. cbv zeta.
+    destruct (Z.ltb_spec (d - p63) p63) as [Hy|Hy].
+    + intros _. lia.
+    + rewrite rne_p63. congruence.
+Qed.
+
+Lemma uint_from_float_exact w f s :
+  uint_from_float w f = Stored s -> exists u, s = StUint u /\ mval_eq (MFin u 0 0) (fdec_val f).
+Proof.
+  unfold uint_from_float.
+  destruct (f_eq_int f (rne 53 (go_uint64 f))) eqn:HE; [|discriminate].
+  intro H. apply uint_from_u64_exact in H. eexists. split; [exact H|].
+  destruct f as [|sg|sg m e]; try discriminate.
+  pose proof (f_eq_int_trunc _ _ _ _ HE) as HT.
+  pose proof (f_eq_int_val _ _ HE) as HV.
+  rewrite go_uint64_int_eq in *.
+  pose proof (go_uint64_int_core _ _ HT) as HC.
+  assert (rne 53 (go_uint64_int sg (dy_trunc m e)) = go_uint64_int sg (dy_trunc m e)) as E by congruence.
+  rewrite E in HV. exact HV.
+Qed.
+
+(* ---- float destinations (integer arguments) ---- *)
+
+Lemma store_float_cases w s n :
+  store_float w s n = FInf s \/ exists n', store_float w s n = FFin s n' 0 /\ (n' = n \/ n' = rne_mag 24 n).
+Proof.
+  destruct w; cbn [store_float]; cbv zeta.
+  - destruct (2 ^ 128 <=? rne_mag 24 n); [left; reflexivity | right; eexists; split; [reflexivity | right; reflexivity]].
+  - right. eexists; split; [reflexivity | left; reflexivity].
+Qed.
+
+Lemma cvt64_int s n : cvt64 (FFin s n 0) = if in_i64 (sgn s n) then sgn s n else - p63.
+Proof. cbn [cvt64]. unfold dy_trunc. cbn [Z.leb Z.compare Z.pow]. rewrite Z.mul_1_r. reflexivity. Qed.
+
+Lemma float_from_int_exact w v s :
+  float_from_int w v = Stored s -> mval_eq (stored_val s) (MFin v 0 0).
+Proof.
+  unfold float_from_int.
+  destruct (Z.eqb_spec (cvt64 (store_float w (v <? 0) (rne_mag 53 (Z.abs v)))) v) as [E|E]; [|discriminate].
+  intro H; inversion H; subst s; clear H. cbn [stored_val].
+  destruct (store_float_cases w (v <? 0) (rne_mag 53 (Z.abs v))) as [HI|[n' [HF _]]].
+  - exfalso. rewrite HI in E. cbn [cvt64] in E. subst v. vm_compute in HI. destruct w; discriminate.
+  - rewrite HF in E |- *. rewrite cvt64_int in E. cbn [fdec_val].
+    destruct (in_i64 (sgn (v <? 0) n')) eqn:Hin.
+    + apply mval_eq_int. exact E.
+    + exfalso. subst v. destruct w; vm_compute in HF; inversion HF; subst n'; vm_compute in Hin; discriminate.
+Qed.
+
+Lemma go_uint64_intval n : go_uint64 (FFin false n 0) = go_uint64_int false n.
+Proof. rewrite go_uint64_int_eq. unfold dy_trunc. cbn [Z.leb Z.compare Z.pow]. rewrite Z.mul_1_r. reflexivity. Qed.
+
+Lemma float_from_uint_exact w u s :
+  0 <= u -> float_from_uint w u = Stored s -> mval_eq (stored_val s) (MFin u 0 0).
+Proof.
+  intro Hu. unfold float_from_uint.
+  destruct (Z.eqb_spec (go_uint64 (store_float w false (rne_mag 53 u))) u) as [E|E]; [|discriminate].
+  intro H; inversion H; subst s; clear H. cbn [stored_val].
+  destruct (store_float_cases w false (rne_mag 53 u)) as [HI|[n' [HF Hn']]].
+  - exfalso. rewrite HI in E. vm_compute in E. subst u. vm_compute in HI. destruct w; discriminate.
+  - rewrite HF in E |- *. rewrite go_uint64_intval in E. cbn [fdec_val sgn].
+    assert (0 <= n') as Hn0.
+    { destruct Hn' as [->| ->]; [|apply rne_mag_nonneg]; apply rne_mag_nonneg; exact Hu. }
+    apply mval_eq_int.
+    unfold go_uint64_int in E. cbn [orb sgn] in E. cbv zeta in E.
+    destruct (Z.ltb_spec n' p63) as [Hlt|Hlt].
+    + assert (in_i64 n' = true) as Hin by (apply in_i64_spec; unfold p63 in *; lia).
+      rewrite Hin in E. rewrite Z.mod_small in E by (unfold p63, p64 in *; lia). exact E.
+    + destruct (Z.ltb_spec (n' - p63) p63) as [Hy|Hy]; [lia|].
+      exfalso. subst u. destruct w; vm_compute in HF; inversion HF; subst n'; vm_compute in Hy; apply Hy; reflexivity.
+Qed.
+
+Lemma float_from_bigint_exact w z s :
+  (w = F32 -> rne_mag 24 (Z.abs z) = Z.abs z /\ Z.abs z < 2 ^ 128) ->
+  float_from_bigint w z = Stored s -> mval_eq (stored_val s) (MFin z 0 0).
+Proof.
+  intro Hw. unfold float_from_bigint. cbv zeta.
+  destruct (2 ^ 1024 <=? rne_mag 53 (Z.abs z)); [discriminate|].
+  destruct (Z.eqb_spec (rne_mag 53 (Z.abs z)) (Z.abs z)) as [E|E]; [|discriminate].
+  intro H; inversion H; subst s; clear H. rewrite E. cbn [stored_val].
+  destruct w; cbn [store_float]; cbv zeta.
+  - destruct (Hw eq_refl) as [H24 Hlt]. rewrite H24.
+    destruct (Z.leb_spec (2 ^ 128) (Z.abs z)); [lia|].
+    cbn [fdec_val]. apply mval_eq_int, sgn_abs.
+  - cbn [fdec_val]. apply mval_eq_int, sgn_abs.
+Qed.
+
+(* ---- the builders ---- *)
+
+Definition call_excluded (c : call) (t : dst) : bool :=
+  match c, t with
+  | CUint u, TBigInt => (p63 <=? u) && Z.odd u
+  | CDec (Dec true _ _), TUint _ => true
+  | CBigDec d, TUint _ => match apd_int64 d with Some i => i <? 0 | None => false end
+  | CBigDec (Dec true c _), TBigInt => negb (c =? 0)
+  | CBigInt z, TFloat F32 => negb (rne_mag 24 (Z.abs z) =? Z.abs z) || (2 ^ 128 <=? Z.abs z)
+  | _, _ => false
+  end.
+
+Definition wf_call (c : call) : Prop :=
+  match c with
+  | CUint u => 0 <= u
+  | CDec (Dec _ c _) => 0 <= c <= p63
+  | _ => True
+  end.
+
+(* the abstract decimal -> binary parse returned the exact value *)
+Definition ext_exact (ext : dec -> option bfl) (d : dec) : Prop :=
+  forall b, ext d = Some b -> mval_eq (bfl_val b) (dec_val d).
+
+Lemma new_float_val f b : new_float f = Some b -> bfl_val b = fdec_val f.
+Proof. destruct f; cbn; intro H; inversion H; reflexivity. Qed.
+
+Lemma bfl_val_refl b : mval_eq (bfl_val b) (bfl_val b).
+Proof. destruct b; reflexivity. Qed.
+
+Lemma uint_to_bigint_exact u : (p63 <=? u) && Z.odd u = false -> uint_to_bigint u = u.
+Proof.
+  unfold uint_to_bigint. intro H. destruct (Z.leb_spec u (p63 - 1)) as [Hl|Hl]; [reflexivity|].
+  apply andb_false_iff in H as [H|H].
+  - apply Z.leb_gt in H. lia.
+  - rewrite (Z.div_mod u 2) at 2 by lia. rewrite Zmod_odd, H. lia.
+Qed.
+
+Lemma call_excluded_bigdec_uint d w :
+  call_excluded (CBigDec d) (TUint w) = match apd_int64 d with Some i => i <? 0 | None => false end.
+Proof. destruct d as [[] ? ?| |]; reflexivity. Qed.
+
+Section Build.
+  Variables (ext_df ext_bdf : dec -> option bfl) (max2 max10 : Z).
+  Notation build' := (build ext_df ext_bdf max2 max10).
+
+  Lemma build_int_exact w c v :
+    wf_call c -> build' c (TInt w) = Stored v -> mval_eq (stored_val v) (call_val c).
+  Proof.
+    intros Hwf. destruct c as [i|u|z|f|b|d|d]; cbn [build call_val].
+    - intro H. apply int_from_i64_exact in H. subst v. reflexivity.
+    - intro H. apply int_from_uint_exact in H; [subst v; reflexivity | exact Hwf].
+    - destruct (in_i64 z); [|discriminate]. intro H. apply int_from_i64_exact in H. subst v. reflexivity.
+    - intro H. apply int_from_float_exact in H as [z [-> Hz]]. exact Hz.
+    - intro H. apply int_from_opt_exact in H as [i [Hi ->]]. apply bigfloat_to_int_exact, Hi.
+    - intro H. apply int_from_opt_exact in H as [i [Hi ->]]. apply dfloat_int_exact, Hi.
+    - intro H. apply int_from_opt_exact in H as [i [Hi ->]]. apply apd_int64_exact in Hi. tauto.
+  Qed.
+
+  Lemma build_uint_exact w c v :
+    wf_call c -> call_excluded c (TUint w) = false ->
+    (forall d, c = CBigDec d -> ext_exact ext_bdf d) ->
+    build' c (TUint w) = Stored v -> mval_eq (stored_val v) (call_val c).
+  Proof.
+    intros Hwf Hex Hext. destruct c as [i|u|z|f|b|d|d]; cbn [build call_val].
+    - destruct (i <? 0); [discriminate|]. intro H. apply uint_from_u64_exact in H. subst v. reflexivity.
+    - intro H. apply uint_from_u64_exact in H. subst v. reflexivity.
+    - destruct (in_u64 z); [|discriminate]. intro H. apply uint_from_u64_exact in H. subst v. reflexivity.
+    - intro H. apply uint_from_float_exact in H as [u [-> Hu]]. exact Hu.
+    - intro H. apply uint_from_opt_exact in H as [u [Hu ->]]. apply bigfloat_to_uint_exact, Hu.
+    - intro H. apply uint_from_opt_exact in H as [u [Hu ->]].
+      destruct d as [neg c e|s|s]; try discriminate.
+      destruct neg; [cbn in Hex; discriminate|].
+      apply dfloat_uint_exact; [exact Hwf | exact Hu].
+    - intro H. apply uint_from_opt_exact in H as [u [Hu ->]]. cbn [stored_val].
+      unfold bigdec_to_uint in Hu. rewrite call_excluded_bigdec_uint in Hex.
+      destruct (apd_int64 d) as [i|] eqn:Hi.
+      + apply apd_int64_exact in Hi as [Hv Hr]. apply Z.ltb_ge in Hex.
+        inversion Hu. rewrite Z.mod_small by (unfold p63, p64 in *; lia). exact Hv.
+      + unfold bigdec_to_bf in Hu. destruct d as [neg c e|s|s]; try discriminate.
+        destruct (ext_bdf (Dec neg c e)) as [b|] eqn:Hb; [|discriminate].
+        eapply mval_eq_trans; [apply bigfloat_to_uint_exact, Hu | apply (Hext _ eq_refl), Hb].
+  Qed.
+
+  Lemma build_float_exact w c v :
+    wf_call c -> call_excluded c (TFloat w) = false ->
+    build' c (TFloat w) = Stored v -> mval_eq (stored_val v) (call_val c).
+  Proof.
+    intros Hwf Hex. destruct c as [i|u|z|f|b|d|d]; cbn [build call_val]; try discriminate.
+    - apply float_from_int_exact.
+    - apply float_from_uint_exact. exact Hwf.
+    - apply float_from_bigint_exact. intros ->. cbn [call_excluded] in Hex.
+      apply orb_false_iff in Hex as [H1 H2]. apply negb_false_iff, Z.eqb_eq in H1. apply Z.leb_gt in H2. tauto.
+    - destruct f as [|s|s m e]; try discriminate. destruct s; try discriminate. destruct m; try discriminate.
+      intro H; inversion H. cbn. lia.
+  Qed.
+
+  Lemma build_bigint_exact c v :
+    call_excluded c TBigInt = false ->
+    build' c TBigInt = Stored v -> mval_eq (stored_val v) (call_val c).
+  Proof.
+    intros Hex. destruct c as [i|u|z|f|b|d|d]; cbn [build call_val].
+    - intro H; inversion H. reflexivity.
+    - intro H; inversion H. cbn [stored_val]. cbn [call_excluded] in Hex. rewrite uint_to_bigint_exact by exact Hex. reflexivity.
+    - intro H; inversion H. reflexivity.
+    - unfold bigint_from_float. destruct (new_float f) as [b|] eqn:Hb; [|discriminate].
+      unfold bigint_from_opt. destruct (bigfloat_to_bigint max2 b) as [z|] eqn:Hz; [|discriminate].
+      intro H; inversion H. cbn [stored_val]. rewrite <- (new_float_val _ _ Hb). eapply bigfloat_to_bigint_exact, Hz.
+    - unfold bigint_from_opt. destruct (bigfloat_to_bigint max2 b) as [z|] eqn:Hz; [|discriminate].
+      intro H; inversion H. eapply bigfloat_to_bigint_exact, Hz.
+    - unfold bigint_from_opt. destruct (dfloat_bigint max10 d) as [z|] eqn:Hz; [|discriminate].
+      intro H; inversion H. eapply dfloat_bigint_exact, Hz.
+    - unfold bigint_from_opt. destruct (bigdec_to_bigint max10 d) as [z|] eqn:Hz; [|discriminate].
+      intro H; inversion H. cbn [stored_val]. destruct d as [neg c e|s|s]; try discriminate.
+      unfold bigdec_to_bigint in Hz. destruct (Z.ltb_spec e 0); [discriminate|].
+      destruct (max10 <? e); [discriminate|]. inversion Hz.
+      cbn [dec_val]. apply mval_eq_int_dec. destruct (Z.leb_spec 0 e); [|lia].
+      destruct neg; cbn [sgn]; [|reflexivity].
+      cbn [call_excluded] in Hex. apply negb_false_iff, Z.eqb_eq in Hex. subst c. reflexivity.
+  Qed.
+
+  Lemma build_bigfloat_exact c v :
+    (forall d, c = CDec d -> ext_exact ext_df d) ->
+    (forall d, c = CBigDec d -> ext_exact ext_bdf d) ->
+    build' c TBigFloat = Stored v -> mval_eq (stored_val v) (call_val c).
+  Proof.
+    intros Hdf Hbdf. destruct c as [i|u|z|f|b|d|d]; cbn [build call_val].
+    - intro H; inversion H. cbn [stored_val bfl_val]. rewrite sgn_abs. reflexivity.
+    - intro H; inversion H. reflexivity.
+    - intro H; inversion H. cbn [stored_val bf_set_int bfl_val]. unfold bf_set_int. cbn [bfl_val]. rewrite sgn_abs. reflexivity.
+    - unfold bigfloat_from_opt. destruct (new_float f) as [b|] eqn:Hb; [|discriminate].
+      intro H; inversion H. cbn [stored_val]. rewrite <- (new_float_val _ _ Hb). apply bfl_val_refl.
+    - intro H; inversion H. apply bfl_val_refl.
+    - unfold bigfloat_from_opt. destruct (dfloat_to_bf ext_df d) as [b|] eqn:Hb; [|discriminate].
+      intro H; inversion H. cbn [stored_val]. clear H.
+      assert (ext_df d = Some b -> mval_eq (bfl_val b) (dec_val d)) as Hx by (apply (Hdf _ eq_refl)).
+      destruct d as [neg c e|s|s]; cbn [dfloat_to_bf] in Hb.
+      + destruct neg, c; try (apply Hx; exact Hb).
+        * inversion Hb. cbn. lia.
+        * destruct e; try (apply Hx; exact Hb). inversion Hb. cbn. lia.
+      + inversion Hb. reflexivity.
+      + discriminate.
+    - unfold bigfloat_from_opt. destruct (bigdec_to_bf ext_bdf d) as [b|] eqn:Hb; [|discriminate].
+      intro H; inversion H. cbn [stored_val]. unfold bigdec_to_bf in Hb.
+      destruct d as [neg c e|s|s]; try discriminate. apply (Hbdf _ eq_refl), Hb.
+  Qed.
+
+  Lemma build_exact c t v :
+    wf_call c -> call_excluded c t = false ->
+    (forall d, c = CDec d -> ext_exact ext_df d) ->
+    (forall d, c = CBigDec d -> ext_exact ext_bdf d) ->
+    build' c t = Stored v -> mval_eq (stored_val v) (call_val c).
+  Proof.
+    intros Hwf Hex Hdf Hbdf. destruct t as [w|w|w| |].
+    - apply build_int_exact; assumption.
+    - apply build_uint_exact; assumption.
+    - apply build_float_exact; assumption.
+    - apply build_bigint_exact; assumption.
+    - apply build_bigfloat_exact; assumption.
+  Qed.
+End Build.
+
+(* ------------------------------------------------------------------ *)
+(* events                                                              *)
+
+Lemma excluded_neg n t : excluded (SNeg n) t = (p63 <=? n).
+Proof. destruct t; reflexivity. Qed.
+
+Lemma route_excluded s t : excluded s t = false -> call_excluded (route s) t = false.
+Proof.
+  intro Hex. destruct s as [n|n|z|z|b|sg|b|d|d]; cbn [route]; try exact Hex.
+  rewrite excluded_neg in Hex. apply Z.leb_gt in Hex.
+  destruct (n =? 0); [destruct t; reflexivity|].
+  destruct (Z.leb_spec n (p63 - 1)); [destruct t; reflexivity | lia].
+Qed.
+
+Lemma route_wf s : wf_src s = true -> wf_call (route s).
+Proof.
+  destruct s as [n|n|z|z|b|sg|b|d|d]; cbn [route wf_src wf_call]; intro H; try exact I.
+  - apply in_u64_spec in H. lia.
+  - destruct (n =? 0); [exact I|]. destruct (n <=? p63 - 1); exact I.
+  - destruct d as [neg c e|s|s]; try exact I. cbn [wf_dec] in H.
+    apply andb_true_iff in H as [H1 H2]. apply Z.leb_le in H1, H2. lia.
+Qed.
+
+Theorem conv_exact ext_df ext_bdf max2 max10 s t v :
+  wf_src s = true -> in_scope s t = true -> excluded s t = false ->
+  (forall d, s = SDec d -> ext_exact ext_df d) ->
+  (forall d, s = SBigDec d -> ext_exact ext_bdf d) ->
+  conv ext_df ext_bdf max2 max10 s t = Stored v ->
+  mval_eq (stored_val v) (src_val s).
+Proof.
+  intros Hwf _ Hex Hdf Hbdf. unfold conv.
+  pose proof (route_wf s Hwf) as Hwc. pose proof (route_excluded s t Hex) as Hec.
+  assert (forall d, route s = CDec d -> ext_exact ext_df d) as Hdf'.
+  { intros d Hd. apply Hdf. destruct s; cbn [route] in Hd; try discriminate.
+    - destruct (_ =? 0); [discriminate|]. destruct (_ <=? _); discriminate.
+    - congruence. }
+  assert (forall d, route s = CBigDec d -> ext_exact ext_bdf d) as Hbdf'.
+  { intros d Hd. apply Hbdf. destruct s; cbn [route] in Hd; try discriminate.
+    - destruct (_ =? 0); [discriminate|]. destruct (_ <=? _); discriminate.
+    - congruence. }
+  intro H. pose proof (build_exact _ _ _ _ _ _ _ Hwc Hec Hdf' Hbdf' H) as HB. clear H Hdf' Hbdf' Hwc Hec.
+  destruct s as [n|n|z|z|b|sg|b|d|d]; cbn [route] in HB; try exact HB.
+  (* SNeg *)
+  rewrite excluded_neg in Hex. apply Z.leb_gt in Hex. cbn [src_val].
+  destruct (Z.eqb_spec n 0) as [E|E].
+  - subst n. eapply mval_eq_trans; [exact HB|]. cbn. lia.
+  - destruct (Z.leb_spec n (p63 - 1)); [exact HB | lia].
+Qed.
+
+(* Integer destinations: no defect class reaches them; the abstract parse is never consulted. *)
+Theorem conv_exact_int ext_df ext_bdf max2 max10 s w v :
+  wf_src s = true ->
+  conv ext_df ext_bdf max2 max10 s (TInt w) = Stored v ->
+  mval_eq (stored_val v) (src_val s).
+Proof.
+  intros Hwf. unfold conv. pose proof (route_wf s Hwf) as Hwc.
+  intro H. pose proof (build_int_exact _ _ _ _ _ _ _ Hwc H) as HB.
+  destruct s as [n|n|z|z|b|sg|b|d|d]; cbn [route] in HB, H; try exact HB.
+  cbn [src_val].
+  destruct (Z.eqb_spec n 0) as [E|E].
+  - subst n. eapply mval_eq_trans; [exact HB|]. cbn. lia.
+  - destruct (Z.leb_spec n (p63 - 1)) as [Hl|Hl]; [exact HB|].
+    exfalso. cbn [build] in H.
+    assert (in_i64 n = false) as Hin.
+    { destruct (in_i64 n) eqn:Hi; [|reflexivity]. apply in_i64_spec in Hi. lia. }
+    rewrite Hin in H. discriminate.
+Qed.
+
+Definition src_is_decimal (s : src) : bool := match s with SDec _ | SBigDec _ => true | _ => false end.
+
+(* Sources that are not decimal floats never reach the abstract parse. *)
+Theorem conv_exact_nondecimal ext_df ext_bdf max2 max10 s t v :
+  wf_src s = true -> in_scope s t = true -> excluded s t = false -> src_is_decimal s = false ->
+  conv ext_df ext_bdf max2 max10 s t = Stored v ->
+  mval_eq (stored_val v) (src_val s).
+Proof.
+  intros Hwf Hsc Hex Hnd. apply conv_exact; try assumption.
+  - intros d ->. discriminate.
+  - intros d ->. discriminate.
+Qed.
+
+(* ------------------------------------------------------------------ *)
+(* witnesses of the defect classes (independent of the abstract parse)  *)
+
+Definition violates (ext_df ext_bdf : dec -> option bfl) (s : src) (t : dst) : Prop :=
+  exists v, wf_src s = true /\ in_scope s t = true /\
+            conv ext_df ext_bdf 166 50 s t = Stored v /\ ~ mval_eq (stored_val v) (src_val s).
+
+Ltac witness x := exists x; repeat split; try reflexivity; vm_compute; let HH := fresh in (intro HH; discriminate HH).
+
+Lemma negint_sign_lost_uint ext_df ext_bdf : violates ext_df ext_bdf (SNeg p63) (TUint I64).
+Proof. witness (StUint p63). Qed.
+Lemma negint_sign_lost_bigint ext_df ext_bdf : violates ext_df ext_bdf (SNeg (p63 + 5)) TBigInt.
+Proof. witness (StBigInt (p63 + 5)). Qed.
+Lemma negint_sign_lost_bigfloat ext_df ext_bdf : violates ext_df ext_bdf (SNeg p63) TBigFloat.
+Proof. witness (StBigFloat (BF false p63 0 64)). Qed.
+Lemma negint_sign_lost_float ext_df ext_bdf : violates ext_df ext_bdf (SNeg p63) (TFloat F64).
+Proof. witness (StFloat (FFin false p63 0)). Qed.
+Lemma posint_low_bit_lost ext_df ext_bdf : violates ext_df ext_bdf (SPos (p63 + 1)) TBigInt.
+Proof. witness (StBigInt p63). Qed.
+Lemma decimal_negative_into_uint ext_df ext_bdf : violates ext_df ext_bdf (SDec (Dec true 5 0)) (TUint I64).
+Proof. witness (StUint 18446744073709551611). Qed.
+Lemma bigdecimal_negative_into_uint ext_df ext_bdf : violates ext_df ext_bdf (SBigDec (Dec true 5 0)) (TUint I64).
+Proof. witness (StUint 18446744073709551611). Qed.
+Lemma bigdecimal_sign_lost_bigint ext_df ext_bdf : violates ext_df ext_bdf (SBigDec (Dec true 5 0)) TBigInt.
+Proof. witness (StBigInt 5). Qed.
+Lemma bigint_rounded_float32 ext_df ext_bdf : violates ext_df ext_bdf (SBigInt 16777217) (TFloat F32).
+Proof. witness (StFloat (FFin false 16777216 0)). Qed.
+Lemma bigint_overflows_float32 ext_df ext_bdf : violates ext_df ext_bdf (SBigInt (2 ^ 128)) (TFloat F32).
+Proof. exists (StFloat (FInf false)); repeat split; try reflexivity. vm_compute. tauto. Qed.
+
+(* the rounding parse: if the library's parse of 1e19 at 4 bits is the correctly rounded one
+   (it is: ParseCase of the correspondence run), 1e19 lands in a uint64 as 10376293541461622784 *)
+Lemma bigdecimal_rounded_into_uint ext_df ext_bdf :
+  ext_bdf (Dec false 1 19) = parse_int_dec (bigdec_prec (Dec false 1 19)) (Dec false 1 19) ->
+  violates ext_df ext_bdf (SBigDec (Dec false 1 19)) (TUint I64).
+Proof.
+  intro Hp. exists (StUint 10376293541461622784). repeat split; try reflexivity.
+  - unfold conv. cbn [route build]. unfold bigdec_to_uint.
+    change (apd_int64 (Dec false 1 19)) with (@None Z). cbn [bigdec_to_bf]. rewrite Hp. vm_compute. reflexivity.
+  - vm_compute. intro HH; discriminate HH.
+Qed.
+
+(* the property as stated fails for every pair of parse functions *)
+Lemma full_refuted ext_df ext_bdf :
+  ~ (forall max2 max10 s t v,
+       wf_src s = true -> in_scope s t = true ->
+       conv ext_df ext_bdf max2 max10 s t = Stored v ->
+       mval_eq (stored_val v) (src_val s)).
+Proof.
+  intro HF.
+  destruct (negint_sign_lost_uint ext_df ext_bdf) as [v [Hwf [Hsc [Hc Hn]]]].
+  exact (Hn (HF _ _ _ _ _ Hwf Hsc Hc)).
+Qed.
